@@ -349,12 +349,19 @@ pub struct Agg {
     pub crashes: u64,
 }
 
+/// most distinct evaluation keys the parent keeps (32 M keys, about half a gigabyte)
+const KEY_CAP: usize = 32_000_000;
+
 fn parse_keys(s: &str, into: &mut HashSet<u64>) {
     let b = s.as_bytes();
     let mut i = 0;
     while i + 16 <= b.len() {
         if let Ok(k) = u64::from_str_radix(&s[i..i + 16], 16) {
-            into.insert(k);
+            // the distinct-key set is capped (thorough tiers of the enumerating checks produce
+            // hundreds of millions of keys): beyond the cap the reported count is a lower bound
+            if into.len() < KEY_CAP {
+                into.insert(k);
+            }
         }
         i += 16;
     }
@@ -831,6 +838,7 @@ fn finish(p: &dyn Property, tier: Tier, seed: u64, total: u64, agg: Agg, t0: Ins
         "coverage": {
             "evaluations": agg.evals,
             "distinct_nontrivial": agg.keys.len(),
+            "distinct_nontrivial_is_lower_bound": agg.keys.len() >= KEY_CAP,
             "rule": meta.rule,
             "samples": samples,
             "exhaustive": complete && p.exhaustive(tier),
